@@ -1,23 +1,22 @@
 SPECIFICATION Spec
 CONSTANTS
   NameSeq <- NamesAB
-  MaxFile = 4
-  MaxLen = 6
-  Counts <- Counts13
+  MaxFile = 3
+  MaxLen = 3
+  Counts <- Counts12
   CfgSet <- CfgRefs
   MODE = "refs"
   Fails <- NoFail
   MAXHOST = 2
-  BUG_CREATE_LEAK = FALSE
+  BUG_CREATE_LEAK = TRUE
   BUG_PROBE_LEAK = FALSE
   BUG_DOTS = FALSE
   DirN <- Dir02
   MAXSEEK = 1000
   SPECIAL_A = TRUE
-  Sample = 400
+  Sample = 40
   WithDetail <- NoDetail
   BlameLabel <- AnyBlame
-INVARIANTS NoViol Resolves
-CONSTRAINT Export
+INVARIANTS NoViolStrict
 VIEW View
 CHECK_DEADLOCK FALSE
